@@ -46,6 +46,7 @@ if [ -n "${VERIF_REPO:-}" ] && [ "$VERIF_REPO" != /repo ]; then
   sed "s#=> /repo#=> $VERIF_REPO#" go.mod >"$ALT.mod"
   cp go.sum "$ALT.sum"
   MODFLAG="-modfile=$ALT.mod"
+  export VERIF_ALT=1   # evidence and replay files of such runs go under .build/, never to evidence/
   BINTAG=".$(basename "$ALT")"
 else
   BINTAG=""
@@ -99,7 +100,9 @@ LIMIT=1500
 [ "$MODE" = thorough ] && LIMIT=7200
 
 RUN=".build/run/$PROP.$$"
-rm -rf "$RUN"; mkdir -p "$RUN" replay evidence
+REPLAYDIR=replay
+[ -n "${VERIF_ALT:-}" ] && REPLAYDIR=.build/alt-replay
+rm -rf "$RUN"; mkdir -p "$RUN" "$REPLAYDIR" evidence
 trap 'rm -rf "$RUN"' EXIT
 
 # Build what is needed, from /repo's current working tree.
@@ -144,12 +147,12 @@ for v in $VARS; do
     parts="$parts $part"
   elif [ $rc -eq 124 ] || [ $rc -eq 137 ]; then
     watchdog=1
-    keep="replay/$PROP-watchdog-$(echo "$v" | tr -c 'A-Za-z0-9\n' '_')-s$VERIF_SEED.log"
+    keep="$REPLAYDIR/$PROP-watchdog-$(echo "$v" | tr -c 'A-Za-z0-9\n' '_')-s$VERIF_SEED.log"
     tail -c 400000 "$RUN/err.$i" >"$keep"
     echo "INCONCLUSIVE property=$PROP variant=$v wall-clock watchdog (${LIMIT}s) fired; goroutine dump in $PWD/$keep"
   else
     crashed=1
-    keep="replay/$PROP-crash-$(echo "$v" | tr -c 'A-Za-z0-9\n' '_')-s$VERIF_SEED.log"
+    keep="$REPLAYDIR/$PROP-crash-$(echo "$v" | tr -c 'A-Za-z0-9\n' '_')-s$VERIF_SEED.log"
     { echo "monitor process for $PROP variant=$v seed=$VERIF_SEED tier=$MODE died with exit code $rc"; tail -c 400000 "$RUN/err.$i"; } >"$keep"
     echo "VIOLATION property=$PROP replay=$PWD/$keep"
     echo "  [crash] monitor process died (exit $rc): $(grep -m1 -E '^(fatal error|panic):' "$RUN/err.$i" || tail -n 1 "$RUN/err.$i")"
